@@ -291,16 +291,45 @@ Qed.
 Definition mode_nt (m : mode) : nt :=
   match m with MDot => Member_dot | MDotArg => Member_dot_arg | MIndex => Member_index end.
 
-(* the root dispatch shared by the three functions, once the receiver [member] node is known *)
-Ltac root_cases Hin IHk Hroot :=
-  cbn [In] in Hin;
+(* one unfolding of [proc] on a node whose receiver has a tree as first child *)
+Definition dispatch (m : mode) (rd : string) (root : node) : res string :=
+  if String.eqb rd "member_dot" then proc MDot root
+  else if String.eqb rd "member_index" then proc MIndex root
+  else if String.eqb rd "member_dot_arg" then proc MDotArg root
+  else if String.eqb rd "primary" then process_primary root
+  else if match m with MDotArg => String.eqb rd "ident" | _ => false end then process_primary root
+  else Raised EUnsupported.
+
+Lemma proc_eq : forall m d d0 rd rcs rest0 c1 tail,
+  match m, tail with
+  | MDotArg, [_] | MDot, [] | MIndex, [] => True
+  | _, _ => False
+  end ->
+  proc m (N d (N d0 (N rd rcs :: rest0) :: c1 :: tail)) =
+  bind (terminal m c1) (fun term =>
+    bind (dispatch m rd (N rd rcs)) (fun r => Done (r +++ "." +++ term))).
+Proof.
+  intros m d d0 rd rcs rest0 c1 tail H.
+  destruct m, tail as [|? [|? ?]]; try contradiction; reflexivity.
+Qed.
+
+Lemma dispatch_safe : forall k m x rcs,
+  (forall (n : node) (m : mode) (cs : list node),
+      size n <= k -> n = N (nt_name (mode_nt m)) cs -> cel_tree_wf n = true -> safe (proc m n)) ->
+  size (N (nt_name x) rcs) <= k ->
+  In x [Member_dot; Member_dot_arg; Member_index; Member_object; Primary] ->
+  cel_tree_wf (N (nt_name x) rcs) = true ->
+  safe (dispatch m (nt_name x) (N (nt_name x) rcs)).
+Proof.
+  intros k m x rcs IHk Hsz Hin Hroot. cbn [In] in Hin. unfold dispatch.
   repeat (destruct Hin as [<-|Hin]); try contradiction; cbn [nt_name] in *;
-  cbn [String.eqb Ascii.eqb Bool.eqb];
-  [ apply safe_bind; [apply (IHk _ MDot _); [|reflexivity|exact Hroot]|intros; exact I]
-  | apply safe_bind; [apply (IHk _ MDotArg _); [|reflexivity|exact Hroot]|intros; exact I]
-  | apply safe_bind; [apply (IHk _ MIndex _); [|reflexivity|exact Hroot]|intros; exact I]
-  | exact I
-  | apply safe_bind; [apply primary_safe; exact Hroot|intros; exact I] ].
+    cbn [String.eqb Ascii.eqb Bool.eqb].
+  - apply (IHk _ MDot rcs); [exact Hsz|reflexivity|exact Hroot].
+  - apply (IHk _ MDotArg rcs); [exact Hsz|reflexivity|exact Hroot].
+  - apply (IHk _ MIndex rcs); [exact Hsz|reflexivity|exact Hroot].
+  - destruct m; exact I.
+  - apply primary_safe; exact Hroot.
+Qed.
 
 Lemma terminal_index_safe : forall ecs, cel_tree_wf (N "expr" ecs) = true ->
   safe (terminal MIndex (N "expr" ecs)).
@@ -320,25 +349,320 @@ Proof.
     + (* _process_member_dot *)
       apply wf_member_dot in Hw. destruct Hw as (mcs & v & -> & Hm).
       apply wf_member in Hm. destruct Hm as (x & rcs & -> & Hroot & Hin).
-      cbn [proc terminal fmt bind].
-      assert (Hsz : size (N (nt_name x) rcs) <= k) by (cbn [size map list_sum fold_right] in Hk |- *; lia).
-      root_cases Hin IHk Hroot; exact Hsz.
+      assert (Hsz : size (N (nt_name x) rcs) <= k)
+        by (cbn [size map list_sum fold_right] in Hk |- *; lia).
+      rewrite proc_eq by exact I. cbn [terminal fmt bind].
+      apply safe_bind; [eapply dispatch_safe; eassumption|intros; exact I].
     + (* _process_member_dot_arg *)
       apply wf_member_dot_arg in Hw. destruct Hw as (mcs & v & Hm & Hcs).
       apply wf_member in Hm. destruct Hm as (x & rcs & -> & Hroot & Hin).
       destruct Hcs as [->|(es & ->)].
       * cbn. exact I.
-      * cbn [proc terminal fmt bind].
-        assert (Hsz : size (N (nt_name x) rcs) <= k) by (cbn [size map list_sum fold_right] in Hk |- *; lia).
-        root_cases Hin IHk Hroot; exact Hsz.
+      * assert (Hsz : size (N (nt_name x) rcs) <= k)
+          by (cbn [size map list_sum fold_right] in Hk |- *; lia).
+        rewrite proc_eq by exact I. cbn [terminal fmt bind].
+        apply safe_bind; [eapply dispatch_safe; eassumption|intros; exact I].
     + (* _process_member_index *)
       apply wf_member_index in Hw. destruct Hw as (mcs & ecs & -> & Hm & He).
       apply wf_member in Hm. destruct Hm as (x & rcs & -> & Hroot & Hin).
-      cbn [proc]. apply safe_bind; [apply terminal_index_safe; exact He|]. intros term _.
-      assert (Hsz : size (N (nt_name x) rcs) <= k) by (cbn [size map list_sum fold_right] in Hk |- *; lia).
-      root_cases Hin IHk Hroot; exact Hsz.
+      assert (Hsz : size (N (nt_name x) rcs) <= k)
+        by (cbn [size map list_sum fold_right] in Hk |- *; lia).
+      rewrite proc_eq by exact I.
+      apply safe_bind; [apply terminal_index_safe; exact He|]. intros term _.
+      apply safe_bind; [eapply dispatch_safe; eassumption|intros; exact I].
 Qed.
 
 Lemma proc_safe : forall m cs, cel_tree_wf (N (nt_name (mode_nt m)) cs) = true ->
   safe (proc m (N (nt_name (mode_nt m)) cs)).
 Proof. intros m cs H. eapply proc_safe_k; [apply le_n|reflexivity|exact H]. Qed.
+
+Lemma visit_total : forall n, cel_tree_wf n = true -> exists o, visit n = Done o.
+Proof.
+  intros n Hw. destruct (wf_is_tree n Hw) as (d & cs & ->).
+  unfold visit.
+  destruct (String.eqb_spec d "member_dot") as [->|_].
+  - pose proof (proc_safe MDot cs Hw) as Hs. cbn [mode_nt nt_name] in Hs.
+    destruct (proc MDot (N "member_dot" cs)) as [s|[]]; cbn in *; try contradiction; eexists; reflexivity.
+  - destruct (String.eqb_spec d "member_index") as [->|_].
+    + pose proof (proc_safe MIndex cs Hw) as Hs. cbn [mode_nt nt_name] in Hs.
+      destruct (proc MIndex (N "member_index" cs)) as [s|[]]; cbn in *; try contradiction; eexists; reflexivity.
+    + eexists; reflexivity.
+Qed.
+
+Lemma collect_total : forall ns, Forall (fun s => cel_tree_wf s = true) ns ->
+  exists S, collect ns = Done S.
+Proof.
+  induction ns as [|n r IH]; intro H.
+  - eexists; reflexivity.
+  - inversion H as [|? ? Hn Hr]; subst. destruct (visit_total n Hn) as (o & Ho).
+    destruct (IH Hr) as (S & HS). cbn [collect]. rewrite Ho, HS. cbn. eexists; reflexivity.
+Qed.
+
+(* C20 (extractor part) / first half of C14: on every tree of the CEL grammar the
+   extractor returns a set and raises nothing *)
+Theorem extract_total : forall t, cel_tree_wf t = true -> exists S, extract t = Done S.
+Proof.
+  intros t Hw. destruct (wf_is_tree t Hw) as (d & cs & ->). unfold extract.
+  apply collect_total. now apply subtrees_wf.
+Qed.
+
+(* ================================================================== *)
+(* D. completeness: every member access the extractor can process is in the result *)
+
+Lemma collect_complete : forall ns S n k,
+  collect ns = Done S -> In n ns -> visit n = Done (Some k) -> In k S.
+Proof.
+  induction ns as [|a r IH]; intros S n k HS Hin Hv; [contradiction|].
+  cbn [collect] in HS. destruct (visit a) as [o|e] eqn:Ea; [|discriminate HS].
+  cbn [bind] in HS. destruct (collect r) as [S'|e] eqn:Er; [|discriminate HS].
+  cbn [bind] in HS. inversion HS; subst S; clear HS.
+  destruct Hin as [->|Hin].
+  - rewrite Hv in Ea. inversion Ea; subst o. now left.
+  - specialize (IH S' n k eq_refl Hin Hv). destruct o; [right|]; assumption.
+Qed.
+
+(* the only keys in the result are those of member_dot / member_index subtrees *)
+Lemma collect_sound : forall ns S k,
+  collect ns = Done S -> In k S -> exists n, In n ns /\ visit n = Done (Some k).
+Proof.
+  induction ns as [|a r IH]; intros S k HS Hk.
+  - inversion HS; subst. contradiction.
+  - cbn [collect] in HS. destruct (visit a) as [o|e] eqn:Ea; [|discriminate HS].
+    cbn [bind] in HS. destruct (collect r) as [S'|e] eqn:Er; [|discriminate HS].
+    cbn [bind] in HS. inversion HS; subst S; clear HS.
+    destruct o as [s|].
+    + destruct Hk as [<-|Hk].
+      * exists a. split; [now left|assumption].
+      * destruct (IH S' k eq_refl Hk) as (n & Hn & Hv). exists n. split; [now right|assumption].
+    + destruct (IH S' k eq_refl Hk) as (n & Hn & Hv). exists n. split; [now right|assumption].
+Qed.
+
+(* ---- statically named step references, defined without the extractor ---- *)
+
+(* the identifier `steps` as a receiver *)
+Definition steps_member : node := N "member" [N "primary" [N "ident" [Tok "IDENT" "steps"]]].
+
+(* a string literal, alone, as an index expression: expr -> ... -> primary -> literal *)
+Definition lit_expr (ty v : string) : node := ch 0 8 (N "literal" [Tok ty v]).
+
+Definition first_is (c : ascii) (s : string) : bool :=
+  match s with String a _ => Ascii.eqb a c | EmptyString => false end.
+Fixpoint last_is (c : ascii) (s : string) : bool :=
+  match s with
+  | EmptyString => false
+  | String a EmptyString => Ascii.eqb a c
+  | String _ r => last_is c r
+  end.
+
+Definition quote1 (q : ascii) : string := String q EmptyString.
+Definition quote3 (q : ascii) : string := String q (String q (String q EmptyString)).
+
+(* steps.NAME  /  steps['NAME'], steps["NAME"], steps['''NAME'''], steps["""NAME"""] *)
+Inductive direct_ref (name : string) : node -> Prop :=
+| dr_dot : direct_ref name (N "member_dot" [steps_member; Tok "IDENT" name])
+| dr_index : forall (q : ascii) (qs ty : string),
+    (q = "'"%char \/ q = """"%char) ->
+    (qs = quote1 q /\ ty = "STRING_LIT" \/ qs = quote3 q /\ ty = "MLSTRING_LIT") ->
+    first_is q name = false -> last_is q name = false ->
+    direct_ref name (N "member_index" [steps_member; lit_expr ty (qs +++ name +++ qs)]).
+
+(* ... at any depth: operands, call arguments, macro bodies, literals, conditionals, indexes *)
+Inductive occurs_steps_ref (name : string) : node -> Prop :=
+| occ_here : forall n, direct_ref name n -> occurs_steps_ref name n
+| occ_child : forall d cs c, In c cs -> occurs_steps_ref name c -> occurs_steps_ref name (N d cs).
+
+(* the names the regular expression returns unchanged *)
+Definition not_dot_bracket (a : ascii) : bool := negb (Ascii.eqb a "."%char || Ascii.eqb a "["%char).
+Definition name_ok (name : string) : bool :=
+  negb (String.eqb name "") && all_chars not_dot_bracket name.
+
+(* valid step labels: the CRD's [[:word:]]+ *)
+Definition label_ok (name : string) : bool :=
+  negb (String.eqb name "") && all_chars is_word name.
+
+Lemma occurs_subtree : forall name t, occurs_steps_ref name t ->
+  exists n, In n (subtrees t) /\ direct_ref name n.
+Proof.
+  intros name t H. induction H as [n Hd|d cs c Hin Hc IH].
+  - exists n. split; [|assumption]. destruct Hd; cbn [subtrees]; now left.
+  - destruct IH as (n & Hn & Hd). exists n. split; [|assumption].
+    cbn [subtrees]. right. apply in_flat_map. now exists c.
+Qed.
+
+(* ---- Python's str.strip on a quoted literal ---- *)
+
+Lemma sapp_cons : forall a r s, String a r +++ s = String a (r +++ s).
+Proof. reflexivity. Qed.
+
+Lemma sapp_nil : forall s, "" +++ s = s.
+Proof. reflexivity. Qed.
+
+Lemma lstrip_first : forall c s, first_is c s = false -> lstrip c s = s.
+Proof. intros c [|a r] H; [reflexivity|]. cbn in *. now rewrite H. Qed.
+
+Lemma rstrip_app : forall c qs name,
+  rstrip c qs = "" -> name <> "" -> last_is c name = false -> rstrip c (name +++ qs) = name.
+Proof.
+  intros c qs name Hq. induction name as [|a r IH]; intros Hne Hl; [congruence|].
+  rewrite sapp_cons. cbn [rstrip]. destruct r as [|b r2].
+  - rewrite sapp_nil, Hq. cbn in Hl. now rewrite Hl.
+  - rewrite IH; [reflexivity|discriminate|exact Hl].
+Qed.
+
+Lemma rstrip_quote1 : forall c, rstrip c (quote1 c) = "".
+Proof. intro c. cbn. now rewrite Ascii.eqb_refl. Qed.
+
+Lemma rstrip_quote3 : forall c, rstrip c (quote3 c) = "".
+Proof. intro c. cbn. now rewrite Ascii.eqb_refl. Qed.
+
+Lemma lstrip_quote1 : forall c s, lstrip c (quote1 c +++ s) = lstrip c s.
+Proof. intros. cbn. now rewrite Ascii.eqb_refl. Qed.
+
+Lemma lstrip_quote3 : forall c s, lstrip c (quote3 c +++ s) = lstrip c s.
+Proof. intros. cbn. now rewrite !Ascii.eqb_refl. Qed.
+
+Lemma first_is_app : forall c name s, name <> "" -> first_is c (name +++ s) = first_is c name.
+Proof. intros c [|a r] s H; [congruence|reflexivity]. Qed.
+
+Lemma strip_quoted : forall q qs name,
+  qs = quote1 q \/ qs = quote3 q -> name <> "" ->
+  first_is q name = false -> last_is q name = false ->
+  strip_char q (qs +++ name +++ qs) = name.
+Proof.
+  intros q qs name Hqs Hne Hf Hl. unfold strip_char.
+  assert (Hr : rstrip q qs = "") by (destruct Hqs as [->| ->]; [apply rstrip_quote1|apply rstrip_quote3]).
+  assert (Hls : lstrip q (qs +++ name +++ qs) = name +++ qs).
+  { destruct Hqs as [->| ->]; [rewrite lstrip_quote1|rewrite lstrip_quote3];
+      apply lstrip_first; now rewrite first_is_app. }
+  rewrite Hls. now apply rstrip_app.
+Qed.
+
+Lemma name_ok_nonempty : forall name, name_ok name = true -> name <> "".
+Proof.
+  intros name H. unfold name_ok in H. apply andb_true_iff in H. destruct H as [H _].
+  intro E. subst. discriminate H.
+Qed.
+
+(* a literal, alone, as index expression: the descent finds it *)
+Lemma terminal_lit : forall ty a r,
+  String.eqb ty "INT_LIT" = false -> strip_char a (String a r) <> "" ->
+  terminal MIndex (lit_expr ty (String a r)) = Done (strip_char a (String a r)).
+Proof.
+  intros ty a r Hty Hne. unfold lit_expr, ch, levels.
+  cbn [skipn firstn Nat.sub chain fold_right terminal descend process_primary bind String.eqb Ascii.eqb Bool.eqb].
+  rewrite Hty. cbn [bind].
+  destruct (String.eqb_spec (strip_char a (String a r)) "") as [E|_]; [contradiction|reflexivity].
+Qed.
+
+Lemma direct_ref_visit : forall name n, name_ok name = true -> direct_ref name n ->
+  visit n = Done (Some ("steps." +++ name)).
+Proof.
+  intros name n Hok Hd. pose proof (name_ok_nonempty name Hok) as Hne.
+  destruct Hd as [|q qs ty Hq Hqs Hf Hl].
+  - reflexivity.
+  - assert (Hs : strip_char q (qs +++ name +++ qs) = name).
+    { apply strip_quoted; try assumption. destruct Hqs as [[-> _]|[-> _]]; [now left|now right]. }
+    assert (Hty : String.eqb ty "INT_LIT" = false) by (destruct Hqs as [[_ ->]|[_ ->]]; reflexivity).
+    assert (Hv : exists r, qs +++ name +++ qs = String q r).
+    { destruct Hqs as [[-> _]|[-> _]]; eexists; reflexivity. }
+    destruct Hv as (r & Hv).
+    unfold visit. cbn [String.eqb Ascii.eqb Bool.eqb].
+    unfold steps_member. rewrite proc_eq by exact I.
+    rewrite Hv in *. rewrite terminal_lit; [|exact Hty|now rewrite Hs].
+    rewrite Hs. reflexivity.
+Qed.
+
+(* ---- the regular expression gives the name back ---- *)
+
+Lemma take_name_id : forall s, all_chars not_dot_bracket s = true -> take_name s = s.
+Proof.
+  induction s as [|a r IH]; intro H; [reflexivity|].
+  cbn in H. apply andb_true_iff in H. destruct H as [Ha Hr].
+  cbn [take_name]. unfold not_dot_bracket in Ha. apply negb_true_iff in Ha. rewrite Ha.
+  now rewrite IH.
+Qed.
+
+Lemma strip_prefix_steps : forall s, strip_prefix "steps" ("steps." +++ s) = Some (String "."%char s).
+Proof. reflexivity. Qed.
+
+Lemma any_char_dot : forall s, any_char (String "."%char s) = Some s.
+Proof. reflexivity. Qed.
+
+Lemma steps_name_key : forall name, name_ok name = true ->
+  steps_name ("steps." +++ name) = Some (Some name).
+Proof.
+  intros name H. unfold name_ok in H. apply andb_true_iff in H. destruct H as [Hne Hc].
+  unfold steps_name. rewrite strip_prefix_steps, any_char_dot.
+  rewrite take_name_id by assumption.
+  apply negb_true_iff in Hne. now rewrite Hne.
+Qed.
+
+Lemma needed_steps_in : forall keys k n, In k keys -> steps_name k = Some n -> In n (needed_steps keys).
+Proof.
+  intros keys k n Hin Hn. unfold needed_steps. apply in_flat_map. exists k. split; [assumption|].
+  rewrite Hn. now left.
+Qed.
+
+(* C14, first sentence (expression level), without assuming anything about the tree:
+   whenever the extractor returns, every statically named step reference is among the
+   step names derived from its result *)
+Theorem steps_ref_in_result : forall t S name,
+  extract t = Done S -> name_ok name = true -> occurs_steps_ref name t ->
+  In (Some name) (needed_steps S).
+Proof.
+  intros t S name HS Hok Hocc.
+  destruct (occurs_subtree name t Hocc) as (n & Hn & Hd).
+  destruct t as [d cs|ty v]; [|contradiction].
+  unfold extract in HS.
+  eapply needed_steps_in; [|apply steps_name_key; exact Hok].
+  eapply collect_complete; [exact HS|exact Hn|now apply direct_ref_visit].
+Qed.
+
+(* ... and on grammar trees the extractor does return *)
+Theorem steps_ref_found : forall t name,
+  cel_tree_wf t = true -> name_ok name = true -> occurs_steps_ref name t ->
+  exists S, extract t = Done S /\ In (Some name) (needed_steps S).
+Proof.
+  intros t name Hw Hok Hocc. destruct (extract_total t Hw) as (S & HS).
+  exists S. split; [assumption|]. eapply steps_ref_in_result; eassumption.
+Qed.
+
+(* valid labels are covered, in both forms, with no side condition on quotes *)
+Lemma is_word_not_dot_bracket : forall a, is_word a = true -> not_dot_bracket a = true.
+Proof.
+  intros a H. unfold not_dot_bracket.
+  destruct (Ascii.eqb_spec a "."%char) as [->|_]; [vm_compute in H; discriminate H|].
+  destruct (Ascii.eqb_spec a "["%char) as [->|_]; [vm_compute in H; discriminate H|].
+  reflexivity.
+Qed.
+
+Lemma all_chars_impl : forall (p q : ascii -> bool) s,
+  (forall a, p a = true -> q a = true) -> all_chars p s = true -> all_chars q s = true.
+Proof.
+  intros p q s Hpq. induction s as [|a r IH]; intro H; [reflexivity|].
+  cbn in *. apply andb_true_iff in H. destruct H as [Ha Hr]. now rewrite (Hpq a Ha), IH.
+Qed.
+
+Lemma label_ok_name_ok : forall name, label_ok name = true -> name_ok name = true.
+Proof.
+  intros name H. unfold label_ok, name_ok in *. apply andb_true_iff in H. destruct H as [H1 H2].
+  rewrite H1. cbn. eapply all_chars_impl; [apply is_word_not_dot_bracket|exact H2].
+Qed.
+
+Lemma is_word_not_quote : forall a q, (q = "'"%char \/ q = """"%char) -> is_word a = true -> Ascii.eqb a q = false.
+Proof.
+  intros a q [->| ->] H.
+  - destruct (Ascii.eqb_spec a "'"%char) as [->|_]; [vm_compute in H; discriminate H|reflexivity].
+  - destruct (Ascii.eqb_spec a """"%char) as [->|_]; [vm_compute in H; discriminate H|reflexivity].
+Qed.
+
+Lemma label_ok_no_edge_quote : forall name q, (q = "'"%char \/ q = """"%char) ->
+  label_ok name = true -> first_is q name = false /\ last_is q name = false.
+Proof.
+  intros name q Hq H. unfold label_ok in H. apply andb_true_iff in H. destruct H as [_ H].
+  split.
+  - destruct name as [|a r]; [reflexivity|]. cbn in *. apply andb_true_iff in H. destruct H as [Ha _].
+    now apply is_word_not_quote.
+  - induction name as [|a r IH]; [reflexivity|]. cbn in H. apply andb_true_iff in H. destruct H as [Ha Hr].
+    destruct r as [|b r2]; [cbn; now apply is_word_not_quote|]. cbn [last_is]. now apply IH.
+Qed.
